@@ -65,6 +65,11 @@ class NumStr:
     def isdigit(self):
         return True
 
+    def replace(self, old, new, *a):
+        if old == "," and new == "":
+            return self
+        raise NotEncodable(f"replace({old!r}, {new!r}) on a number string")
+
     def __eq__(self, o):
         if isinstance(o, NumStr):
             return mkbool(self.v == o.v)
@@ -80,6 +85,37 @@ class NumStr:
 
     def __repr__(self):
         return f"NumStr({self.v})"
+
+
+class CommaNumStr:
+    """a page written with thousands separators ("12,345"): not isdigit(); replace(",", "") gives the number."""
+
+    def __init__(self, v):
+        self.v = v
+
+    def isdigit(self):
+        return False
+
+    def replace(self, old, new, *a):
+        if old == "," and new == "":
+            return NumStr(self.v)
+        raise NotEncodable(f"replace({old!r}, {new!r}) on a comma-separated number")
+
+    def __eq__(self, o):
+        if isinstance(o, CommaNumStr):
+            return mkbool(self.v == o.v)
+        return False
+
+    def __ne__(self, o):
+        return _neg(self.__eq__(o))
+
+    __hash__ = None
+
+    def __bool__(self):
+        return True
+
+    def __repr__(self):
+        return f"CommaNumStr({self.v})"
 
 
 class PinStr:
@@ -241,7 +277,14 @@ def install(it):
 
     it.stubs[set] = lambda items=(): SymSet(it, items)
     it.stubs[collections.defaultdict] = lambda f=None: SymDD(it, f)
-    it.stubs[int] = lambda x=0, *a: SInt(x.v) if isinstance(x, NumStr) else int(x, *a)
+    def to_int(x=0, *a):
+        if isinstance(x, NumStr):
+            return SInt(x.v)
+        if isinstance(x, (CommaNumStr, WordStr, Atom)):
+            raise ValueError(f"invalid literal for int() with base 10: {x!r}")
+        return int(x, *a)
+
+    it.stubs[int] = to_int
     it.stubs[list] = lambda x=(): list(x)
 
     def mk_dict(x=(), **kw):
